@@ -11,7 +11,7 @@ name in `ReceptorVerifyFunc` (each failure returns an error), the role key usage
 expected client name from; the verifier is a closure that keeps nothing between handshakes and reads the
 clock at each of them, compares the pins with the digest of the leaf only; a server profile that requires a
 client certificate asks for `RequireAndVerifyClientCert` whatever else is configured, and the stream listener
-binds the client name exactly in that case. -/
+binds the client name exactly in that case, running the profile's own verifier (with its pins) first. -/
 theorem C09_facts :
     Receptor.Facts.rvf_pin_lengths = "28,32,48,64"
     ∧ Receptor.Facts.rvf_steps = "parse,pins,chain,name"
@@ -23,7 +23,9 @@ theorem C09_facts :
     ∧ Receptor.Facts.rvf_closure = "single-return-closure;CurrentTime:time.Now()x2;empty-chain:refused"
     ∧ Receptor.Facts.rvf_pin_subject = "certs[0].Raw"
     ∧ Receptor.Facts.tls_server_clientauth = "cfg.RequireClientCert:RequireAndVerifyClientCert;cfg.ClientCAs != \"\":VerifyClientCertIfGiven;default:NoClientCert;assignments:3"
-    ∧ Receptor.Facts.tls_listener_bind_when = "tlscfg.ClientAuth == tls.RequireAndVerifyClientCert" := by
+    ∧ Receptor.Facts.tls_listener_bind_when = "tlscfg.ClientAuth == tls.RequireAndVerifyClientCert"
+    ∧ Receptor.Facts.tls_listener_pins = "chained-with-profile-verifier"
+    ∧ Receptor.Facts.tls_client_cfg_clone = "clone-before-first-write;returns:tlscfg" := by
   decide +kernel
 
 /-- **accept_iff.** The connection is accepted exactly when the certificate parses, the pin rule
@@ -121,6 +123,8 @@ theorem required_client_cert_binds_source (hasCAs : Bool) (source : Bytes) (cert
   | none => simp at h
   | some p =>
     refine ⟨p, rfl, ?_⟩
+    simp only [Bool.and_eq_true] at h
+    replace h := h.2
     simp only [decide, Bool.and_eq_true, usageOK, nameOK] at h
     obtain ⟨⟨⟨⟨⟨h1, _⟩, h3⟩, h4⟩, h5⟩, h6⟩ := h
     refine ⟨h1, h3, h4, h5, ?_⟩
@@ -140,6 +144,45 @@ theorem C09_witness_downgrade :
     let other : Peer := { parsed := true, chainOK := true, validNow := true, usageServer := true, usageClient := true, dnsOK := false,
                           names := some [[110, 51]], digest := fun _ => [] }
     established true true [110, 50] (some other) = false ∧ established false true [110, 50] (some other) = true := by
+  decide
+
+/-- **pinned_client_cert_enforced.** A server profile that pins client certificates: on a stream listener that
+requires a client certificate (the per-connection verifier keeping the profile's pins) and on one that verifies offered
+certificates, a stream is established only with a certificate whose digest is one of the pins. -/
+theorem pinned_client_cert_enforced (require hasCAs : Bool) (hv : require = true ∨ hasCAs = true) (source : Bytes) (p : Peer)
+    (pins : List Bytes) (hp : pins ≠ [])
+    (h : established require hasCAs source (some p) pins true = true) :
+    ∃ pin ∈ pins, pin = p.digest pin.length := by
+  have hpin : pinOK pins p.digest = true := by
+    unfold established serverClientAuth at h
+    cases require with
+    | true =>
+      simp only [if_true, Bool.not_true, Bool.false_or, Bool.and_eq_true] at h
+      have h1 := h.1
+      simp only [decide, Bool.and_eq_true] at h1
+      exact h1.1.1.1.1.2
+    | false =>
+      have hc : hasCAs = true := by
+        cases hv with
+        | inl h' => cases h'
+        | inr h' => exact h'
+      simp only [hc, Bool.false_eq_true, if_false, if_true] at h
+      simp only [decide, Bool.and_eq_true] at h
+      exact h.1.1.1.1.2
+  have hne : pins.isEmpty = false := by
+    cases pins with
+    | nil => exact absurd rfl hp
+    | cons a t => rfl
+  simp only [pinOK, hne, Bool.false_or, Bool.and_eq_true, List.any_eq_true, beq_iff_eq] at hpin
+  exact hpin.2
+
+/-- Witness of the variant in which the listener's per-connection verifier drops the profile's pins: a trusted
+certificate for the right node that is *not* pinned opens a stream. -/
+theorem C09_witness_pins_dropped :
+    let own : Peer := { parsed := true, chainOK := true, validNow := true, usageServer := true, usageClient := true, dnsOK := false,
+                        names := some [[110, 50]], digest := fun n => List.replicate n 7 }
+    established true true [110, 50] (some own) [List.replicate 32 9] true = false
+    ∧ established true true [110, 50] (some own) [List.replicate 32 9] false = true := by
   decide
 
 end Receptor.Verify
